@@ -157,3 +157,10 @@ def fresh_process_warning_filters():
         warnings.filterwarnings('ignore', category=ImportWarning, append=True)
         warnings.filterwarnings('ignore', category=ResourceWarning, append=True)
         yield
+
+
+# third-party pytest plugins installed in the environment have nothing to do with what is observed and one of them
+# (rerunfailures) opens a socket per session that an in-process pytest.main never closes: thousands of sessions in
+# long-lived workers exhaust the ephemeral ports of the machine.  Only xdoctest's own plugin stays.
+PYTEST_ISOLATION_ARGS = ['-p', 'no:cacheprovider', '-p', 'no:rerunfailures', '-p', 'no:xdist', '-p', 'no:benchmark',
+                         '-p', 'no:pytest_cov', '-p', 'no:asyncio', '-p', 'no:timeout', '-p', 'no:pytest_mock']
